@@ -937,13 +937,17 @@ pixman_image_fill_boxes (pixman_op_t           op,
             for (j = 0; j < n_rects; ++j)
             {
                 const pixman_box32_t *rect = &(rects[j]);
-                pixman_fill (dest->bits.bits, dest->bits.rowstride, PIXMAN_FORMAT_BPP (dest->bits.format),
-                             rect->x1, rect->y1, rect->x2 - rect->x1, rect->y2 - rect->y1,
-                             pixel);
+                if (!pixman_fill (dest->bits.bits, dest->bits.rowstride, PIXMAN_FORMAT_BPP (dest->bits.format),
+                                  rect->x1, rect->y1, rect->x2 - rect->x1, rect->y2 - rect->y1,
+                                  pixel))
+                    break;
             }
 
             pixman_region32_fini (&fill_region);
-            return TRUE;
+
+            /* No implementation could fill: composite instead (below) */
+            if (j == n_rects)
+                return TRUE;
         }
     }
 
